@@ -47,14 +47,14 @@ class _HebrewYearMonthDayCalculator(_YearMonthDayCalculator):
     def __civil_to_calendar_month(self, year: int, month: int) -> int:
         return (
             month
-            if self.__month_numbering is HebrewMonthNumbering.CIVIL
+            if self.__month_numbering == HebrewMonthNumbering.CIVIL
             else _HebrewMonthConverter._civil_to_scriptural(year, month)
         )
 
     def __scriptural_to_calendar_month(self, year: int, month: int) -> int:
         return (
             month
-            if self.__month_numbering is HebrewMonthNumbering.SCRIPTURAL
+            if self.__month_numbering == HebrewMonthNumbering.SCRIPTURAL
             else _HebrewMonthConverter._scriptural_to_civil(year, month)
         )
 
